@@ -123,4 +123,49 @@ open Oidc.Generated Oidc.CodeRefine in
 /-- the constants of the translated function are the ones the property's bound is computed from -/
 theorem code_discovery_constants : codeDF.maxRetries = 5 ∧ codeDF.baseDelay = 1000000000 ∧ codeDF.maxDelay = 30000000000 := by decide
 
+open Oidc.Generated Oidc.CodeRefine in
+/-- metadata_cache.go `MetadataCache.GetMetadata` as translated, with a document in the cache, is the model's hourly refresh tick:
+    before `expiresAt` the cached document is returned and the provider is not asked; afterwards one discovery round runs — a healthy
+    answer replaces the document (good for one hour from the end of the round), a failed round keeps the old document and asks
+    again after five minutes.  Instant, rest of the script and the new cache state are `Oidc.Discovery.refreshTick`'s: a provider
+    outage during a refresh never takes the endpoints away. -/
+theorem code_GetMetadata_is_refreshTick (url : Go.Str) (hcl : Go.HTTPClient) (l : Go.Logger) (c : Go.MetaCache) (d0 : Nat)
+    (hc : c.metadata = some ⟨d0⟩) (script : List (Outcome Nat)) (t : Int) (fuel : Nat) (hf : 6 ≤ fuel) (hlen : 5 ≤ script.length)
+    (hd : ∀ o ∈ script, 0 ≤ durOf o ∧ durOf o ≤ 15000000000) :
+    let r := refreshTick codeDF Go.Hour (5 * Go.Minute) ⟨d0, c.expiresAt⟩ t script
+    let tEnd := if t < c.expiresAt then t else (round codeDF script t 0).1
+    Code.MetadataCache_GetMetadata fuel scriptOps c url hcl l (script, t) =
+      some (((some ⟨r.1.doc⟩, none), ⟨some ⟨r.1.doc⟩, r.1.expires⟩), (r.2.1, tEnd)) :=
+  GetMetadata_refines url hcl l c d0 hc script t fuel hf hlen hd
+
+open Oidc.Generated Oidc.CodeRefine in
+/-- the first load (nothing cached): the document of a healthy round, cached for one hour from the end of the round; after a failed
+    round an error and a still empty cache — so the caller's retry loop (`initializeMetadata`, the model's `initRun`) starts the
+    next round from the same state -/
+theorem code_GetMetadata_first_load (url : Go.Str) (hcl : Go.HTTPClient) (l : Go.Logger) (c : Go.MetaCache)
+    (hc : c.metadata = none) (script : List (Outcome Nat)) (t : Int) (fuel : Nat) (hf : 6 ≤ fuel) (hlen : 5 ≤ script.length)
+    (hd : ∀ o ∈ script, 0 ≤ durOf o ∧ durOf o ≤ 15000000000) :
+    let r := round codeDF script t 0
+    ∃ res, Code.MetadataCache_GetMetadata fuel scriptOps c url hcl l (script, t) = some (res, (r.2.2.1, r.1)) ∧
+      match r.2.1 with
+      | some d => res = ((some ⟨d⟩, none), ⟨some ⟨d⟩, r.1 + Go.Hour⟩)
+      | none => res.1.1 = none ∧ res.1.2.isSome = true ∧ res.2 = c :=
+  GetMetadata_first url hcl l c hc script t fuel hf hlen hd
+
+open Oidc.Generated Oidc.CodeRefine in
+/-- the cache's own five-minute clean-up (`MetadataCache.Cleanup` as translated) drops a document only once it has expired, so it
+    never changes whether a later `GetMetadata` is answered from the cache -/
+theorem code_MetadataCache_Cleanup_transparent (now later : Int) (c : Go.MetaCache) (h : now ≤ later) :
+    Code.MetadataCache_isCacheValid later (Code.MetadataCache_Cleanup now c) = Code.MetadataCache_isCacheValid later c :=
+  Cleanup_transparent now later c h
+
+/-- a cache state and a script meeting the hypotheses: a document that expired, five failing answers of 2 s each -/
+example : let script : List (Outcome Nat) := [.fail 2000000000, .fail 2000000000, .fail 2000000000, .fail 2000000000, .fail 2000000000]
+    (5 ≤ script.length) ∧ (∀ o ∈ script, 0 ≤ Oidc.CodeRefine.durOf o ∧ Oidc.CodeRefine.durOf o ≤ 15000000000) ∧
+    (refreshTick Oidc.CodeRefine.codeDF Go.Hour (5 * Go.Minute) ⟨7, 100⟩ 200 script).1.doc = 7 := by
+  refine ⟨by decide, ?_, by decide⟩
+  intro o ho
+  simp only [List.mem_cons, List.mem_nil_iff, or_false] at ho
+  rcases ho with h | h | h | h | h <;> subst h <;> decide
+
 end Oidc.Props.C20
